@@ -209,10 +209,10 @@ def _collect(soup):
     return regions, refs, divs, ps
 
 
-def _integrity(w, set_l, lang_l, cap_l, node_l, two, same, forced, style_name=None):
+def _integrity(w, set_l, lang_l, cap_l, node_l, two, same, forced, style_name=None, style_props=None):
     cs = build_set(set_l=set_l, lang_l=lang_l, cap_l=cap_l, node_l=node_l, two_langs=two, same_times=same, italics=3, style=1, set_styles=1)
     if style_name is not None:   # rename the document style 's1' (stylesheet entry and the captions' class reference)
-        cs.set_styles({style_name: {"color": "red", "font-family": "Arial"}})
+        cs.set_styles({style_name: dict(style_props) if style_props is not None else {"color": "red", "font-family": "Arial"}})
         for lang in cs.get_languages():
             for c in cs.get_captions(lang):
                 c.style = {"class": style_name}
@@ -355,6 +355,17 @@ def style_names(k: int, w: int, cap_l: bool) -> str:
     # document style names that look like the writer's own ids ('p', 'default') or nearly like region ids
     name = "p" if k == 0 else ("default" if k == 1 else ("r" if k == 2 else "bottom0"))
     return _integrity(w, 0, 2, 1 if cap_l else 0, 2, False, False, False, style_name=name)
+
+
+def p_style_props(k: int, w: int, cap_l: bool) -> str:
+    """
+    pre: 0 <= k < 4 and 0 <= w < 3
+    post: _ == ""
+    """
+    # a document style 'p' (SAMI's paragraph rule) whose properties DFXP can express (colour), cannot express
+    # (underline / bold + lang), or which is empty: a style= reference is written only when the definition is
+    props = {"color": "red"} if k == 0 else ({"underline": True} if k == 1 else ({"bold": True, "lang": "en"} if k == 2 else {}))
+    return _integrity(w, 0, 2, 1 if cap_l else 0, 2, False, False, False, style_name="p", style_props=props)
 
 
 def style_named_like_region(k: int, w: int) -> str:
